@@ -332,6 +332,8 @@ open Rsj.TraceStack in
 open Rsj.TraceStack in
 #print axioms C10_primitives
 open Rsj.TraceStack in
+#print axioms C10_handlers_from_sites_bracketed
+open Rsj.TraceStack in
 #print axioms C10_trace_invariant
 open Rsj.TraceStack in
 #print axioms C10_trace_invariant_sites
